@@ -93,52 +93,17 @@ def r3_header(ctx):
   ctx.ob('C13.R3', f, 'type byte source', isinstance(s.args[1], ast.Name) and s.args[1].id == params[2],
          'type byte is not the msg_type parameter', 'the header must carry the message type it was asked to write')
 
-  # transport: data_len from the stream, body from the same stream
-  t = prog.func(MUX, 'MuxSocketTransportSink.AsyncProcessRequest')
-  tdefs = local_defs(t.node)
-  stream = t.params[3]
-  calls = [c for c in walk_no_nested(t.node) if isinstance(c, ast.Call) and call_attr(c) == '_BuildHeader']
-  ctx.floor('C13.R3', '_BuildHeader call sites in the mux transport', len(calls), 1)
-  for c in calls:
-    dl = resolve_local(c.args[2], tdefs, c.lineno) if len(c.args) >= 3 else None
-    ok = dl is not None and U(dl) in ('%s.tell()' % stream, 'len(%s.getvalue())' % stream)
-    ctx.ob('C13.R3', t, 'data_len source', ok,
-           'data_len passed to _BuildHeader is %s' % (U(dl) if dl is not None else '?'),
-           'the declared body length must be measured on the stream whose bytes are sent')
-    # header value flows into the payload together with stream.getvalue()
-    hdr_names = [st.targets[0].id for st in walk_no_nested(t.node)
-                 if isinstance(st, ast.Assign) and st.value is c and isinstance(st.targets[0], ast.Name)]
-    puts = [p for p in walk_no_nested(t.node) if isinstance(p, ast.Call) and call_attr(p) == 'put']
-    okp = False
-    for p in puts:
-      if not p.args:
-        continue
-      el = p.args[0].elts[0] if isinstance(p.args[0], ast.Tuple) and p.args[0].elts else p.args[0]
-      el = resolve_local(el, tdefs, p.lineno)
-      if (isinstance(el, ast.BinOp) and isinstance(el.op, ast.Add) and isinstance(el.left, ast.Name)
-          and el.left.id in hdr_names and U(el.right) == '%s.getvalue()' % stream):
-        okp = True
-    ctx.ob('C13.R3', t, 'frame = header + stream bytes', okp,
-           'the queued frame is not <header> + %s.getvalue()' % stream,
-           'the bytes after the header must be exactly the measured body')
-  # producers never rewind / truncate the request stream
-  bad = []
-  producers = [prog.func(TSINK, 'ThriftMuxMessageSerializerSink.AsyncProcessRequest'),
-               prog.func(TSINK, 'SocketTransportSink._CreateDiscardMessage')]
-  producers += [g for g in prog.all_funcs if g.module.rel == SER and g.name.startswith(('_Marshal', 'Marshal', '_WriteContext'))]
-  producers.append(prog.func('scales/thrift/serializer.py', 'MessageSerializer.SerializeThriftCall'))
-  for g in producers:
-    for c in walk_no_nested(g.node):
-      if isinstance(c, ast.Call) and call_attr(c) in ('seek', 'truncate'):
-        bad.append((g, c))
-  for g in producers[:2]:
-    fresh = [st for st in walk_no_nested(g.node) if isinstance(st, ast.Assign) and isinstance(st.value, ast.Call)
-             and (dotted(st.value.func) or '').split('.')[-1] == 'BytesIO' and not st.value.args]
-    ctx.ob('C13.R3', g, 'fresh request stream', bool(fresh), 'no fresh BytesIO() for the request body',
-           'tell() equals the body length only on a fresh stream written front to back')
-  ctx.ob('C13.R3', producers[0], 'producers never seek', not bad,
-         'request stream is repositioned in %s' % ', '.join(g.qualname for g, _ in bad),
-         'after a seek, tell() no longer equals len(getvalue()) and the declared length is wrong')
+  wire.transport_len_rules(ctx, 'C13.R3')
+  producer = prog.func(TSINK, 'ThriftMuxMessageSerializerSink.AsyncProcessRequest')
+  helpers = [g for g in prog.all_funcs if g.module.rel == SER and g.name.startswith(('_Marshal', 'Marshal', '_WriteContext'))]
+  helpers.append(prog.func('scales/thrift/serializer.py', 'MessageSerializer.SerializeThriftCall'))
+  wire.fresh_stream_rules(ctx, 'C13.R3', producer, helpers)
+  dm = prog.func(TSINK, 'SocketTransportSink._CreateDiscardMessage')
+  fresh = [st for st in walk_no_nested(dm.node) if isinstance(st, ast.Assign) and isinstance(st.value, ast.Call)
+           and (dotted(st.value.func) or '').split('.')[-1] == 'BytesIO' and not st.value.args]
+  ctx.ob('C13.R3', dm, 'fresh discard stream', bool(fresh) and not any(
+    isinstance(c, ast.Call) and call_attr(c) in ('seek', 'truncate') for c in walk_no_nested(dm.node)),
+         'discard body is not a fresh, unrewound BytesIO()', 'tell() equals the body length only on a fresh stream written front to back')
 
 
 # ----------------------------------------------------------------------- R4
